@@ -1,6 +1,193 @@
-(* Props/C02.v — placeholder while the proofs are being built. *)
-From Coq Require Import ZArith.
-From PV Require Import Base.Outcome Model.Curve.
-Theorem C02_placeholder : inverse_mod 3 7 = Ret 5%Z.
-Proof. vm_compute. reflexivity. Qed.
-Print Assumptions C02_placeholder.
+(* Props/C02.v — property C02: elliptic-curve arithmetic is the group law on every curve and backend.
+   Only statements; every proof is `exact <lemma>`.
+
+   Model: Model/Curve.v (Curve.py, Point.py, Generator.py, encrypt.py).  Spec: Spec/Weierstrass.v.
+   Vocabulary (Proofs/CurveP.v, Proofs/CurveAddP.v):
+     on_curve c P    y^2 = x^3 + a x + b (mod p), coordinates NOT required to be reduced (as Python accepts them)
+     red c P         the element denoted by P: coordinates mod p;   valid c P = on_curve /\ coordinates in [0, p)
+     gadd c P Q      = match add c P Q with Ret R => red c R | _ => None end       (gadd_unfold)
+     gneg c P        = (x mod p, (p - y) mod p)                                    (gneg_unfold)
+     kP c k P        P added to itself |k| times with gadd, negated with gneg for k < 0  (Spec.smul: repeated addition)
+   Mathematical premises, always explicit hypotheses, never axioms (DESIGN.md section 3):
+     M1 c  p is prime        M3 c  t^(p-1) = 1 (mod p) for t <> 0        M4 c  gadd is associative on valid points
+     order_kills c P         n * P = O
+   They are DISCHARGED by kernel computation on the toy curves of CurveP.toy_curves (C02_toy_...: no premise left);
+   for the shipped 256/381-bit curves they stay premises, every other side condition is decided by computation on the
+   table regenerated from /repo (Gen/GenCurves.v, C02_shipped_...). *)
+From Coq Require Import ZArith Znumtheory List.
+From PV Require Import Base.Outcome Model.Curve Spec.Weierstrass Gen.GenCurves
+  Proofs.CurveInvP Proofs.CurveAddP Proofs.CurveMulP Proofs.CurveSqrtP Proofs.CurveToy Proofs.CurveP.
+Local Open Scope Z_scope.
+
+(* ---- inverse_mod: total on coprime inputs (the fuel derived from log2 m always suffices), correct, in range ---- *)
+Theorem C02_inverse_mod_correct : forall a m : Z, 1 < m -> Z.gcd a m = 1 ->
+  exists i, inverse_mod a m = Ret i /\ 0 < i < m /\ (a * i) mod m = 1.
+Proof. exact inverse_mod_correct. Qed.
+Print Assumptions C02_inverse_mod_correct.
+
+Theorem C02_inverse_mod_rejects : forall a m : Z, 1 < m -> Z.gcd a m <> 1 -> inverse_mod a m = Raise E_ASSERT.
+Proof. exact inverse_mod_not_coprime. Qed.
+Print Assumptions C02_inverse_mod_rejects.
+
+(* ---- add = chord-and-tangent on possibly unreduced on-curve operands; closure; result reduced ---- *)
+Theorem C02_add_is_spec : forall c : curve, M1 c -> cp c <> 2 ->
+  forall P Q : pt, on_curve c P -> on_curve c Q ->
+  exists R, add c P Q = Ret R /\ on_curve c R /\ (P <> None -> Q <> None -> reduced c R) /\
+            spec_add c (red c P) (red c Q) (red c R).
+Proof. exact add_is_spec_c. Qed.
+Print Assumptions C02_add_is_spec.
+
+Theorem C02_add_commutative : forall c : curve, M1 c -> cp c <> 2 ->
+  forall P Q : pt, on_curve c P -> on_curve c Q -> same_element c (add c P Q) (add c Q P).
+Proof. exact add_comm_model. Qed.
+Print Assumptions C02_add_commutative.
+
+Theorem C02_add_identity : forall (c : curve) (P : pt), add c None P = Ret P /\ add c P None = Ret P.
+Proof. exact add_identity_model. Qed.
+Print Assumptions C02_add_identity.
+
+Theorem C02_neg_is_inverse : forall c : curve, M1 c -> cp c <> 2 -> forall P : pt, on_curve c P ->
+  exists N, neg c P = Ret N /\ on_curve c N /\ red c N = spec_neg c (red c P) /\
+            same_element c (add c P N) (Ret None).
+Proof. exact add_inverse_model. Qed.
+Print Assumptions C02_neg_is_inverse.
+
+(* associativity of the model's add IS premise M4 (restated on arbitrary on-curve operands) *)
+Theorem C02_add_associative_from_M4 : forall c : curve, M1 c -> cp c <> 2 -> M4 c ->
+  forall P Q R : pt, on_curve c P -> on_curve c Q -> on_curve c R ->
+  same_element c (bind (add c P Q) (fun S => add c S R)) (bind (add c Q R) (fun S => add c P S)).
+Proof. exact add_assoc_model. Qed.
+Print Assumptions C02_add_associative_from_M4.
+
+(* ---- multiply: the (e, 3e) ladder computes e * P for EVERY integer e (zero, negative, >= n) ---- *)
+Theorem C02_multiply_correct : forall c : curve, M1 c -> cp c <> 2 -> M4 c ->
+  forall (P : pt) (e : Z), on_curve c P -> 0 < cn c -> order_kills c (red c P) ->
+  exists R, multiply c P e = Ret R /\ on_curve c R /\ red c R = kP c e (red c P).
+Proof. exact multiply_correct. Qed.
+Print Assumptions C02_multiply_correct.
+
+(* odd order (every shipped curve): the returned pair is the reduced representative itself *)
+Theorem C02_multiply_exact : forall c : curve, M1 c -> cp c <> 2 -> M4 c ->
+  forall (P : pt) (e : Z), on_curve c P -> 0 < cn c -> Z.odd (cn c) = true -> order_kills c (red c P) ->
+  multiply c P e = Ret (kP c e (red c P)).
+Proof. exact multiply_exact. Qed.
+Print Assumptions C02_multiply_exact.
+
+(* Curve(p, a, b) without order: the scalar is used as given; negative scalars raise AssertionError *)
+Theorem C02_multiply_without_order : forall c : curve, M1 c -> cp c <> 2 -> M4 c ->
+  forall (P : pt) (e : Z), on_curve c P -> cn c = 0 -> 0 <= e ->
+  exists R, multiply c P e = Ret R /\ on_curve c R /\ red c R = kP c e (red c P).
+Proof. exact multiply_no_order. Qed.
+Print Assumptions C02_multiply_without_order.
+
+Theorem C02_multiply_without_order_negative : forall c : curve, M1 c -> cp c <> 2 ->
+  forall x y e : Z, on_curve c (Some (x, y)) -> cn c = 0 -> e < 0 -> multiply c (Some (x, y)) e = Raise E_ASSERT.
+Proof. exact multiply_no_order_negative. Qed.
+Print Assumptions C02_multiply_without_order_negative.
+
+(* ---- Generator: fixed-base table multiplication and blinding ----
+   the proof forces 0 < n <= 2^bit_count (the loop reads bit_count bits of e mod n); blinding is transparent:
+   the result does not depend on g_blind *)
+Theorem C02_raw_mul_and_blinded_mul_correct : forall c : curve, M1 c -> cp c <> 2 -> M4 c ->
+  forall g : gen, gc g = c -> valid c (gG g) -> 0 < cn c <= 2 ^ Z.of_nat (g_bits g) -> order_kills c (gG g) ->
+  forall e : Z, gmul g e = Ret (kP c e (gG g)) /\ raw_mul g e = Ret (kP c e (gG g)).
+Proof. exact fixed_base_exact. Qed.
+Print Assumptions C02_raw_mul_and_blinded_mul_correct.
+
+Theorem C02_fixed_base_unreduced_generator : forall c : curve, M1 c -> cp c <> 2 -> M4 c ->
+  forall g : gen, gc g = c -> on_curve c (gG g) -> 0 < cn c <= 2 ^ Z.of_nat (g_bits g) ->
+  order_kills c (red c (gG g)) ->
+  forall e : Z, (exists R, gmul g e = Ret R /\ on_curve c R /\ red c R = kP c e (red c (gG g))) /\
+                (exists R, raw_mul g e = Ret R /\ on_curve c R /\ red c R = kP c e (red c (gG g))).
+Proof. exact fixed_base_correct. Qed.
+Print Assumptions C02_fixed_base_unreduced_generator.
+
+(* the public constructor establishes that hypothesis (bit_count = max(256, order.bit_length())) *)
+Theorem C02_constructor_table_width : forall (p a b Gx Gy n ent : Z) (g : gen),
+  mk_gen p a b Gx Gy n ent = Ret g -> 0 < n ->
+  gc g = {| cp := p; ca := a; cb := b; cn := n |} /\ gG g = Some (Gx, Gy) /\
+  contains_point (gc g) (gG g) = true /\ p mod 4 = 3 /\ n <= 2 ^ Z.of_nat (g_bits g) /\ g_blind g = ent mod n.
+Proof. exact mk_gen_facts. Qed.
+Print Assumptions C02_constructor_table_width.
+
+(* ... and it cannot be dropped *)
+Example C02_raw_mul_needs_table_width :
+  let c := {| cp := 43; ca := 0; cb := 7; cn := 31 |} in
+  let g := {| gc := c; gG := Some (2, 12); g_bits := 3%nat; g_blind := 0 |} in
+  raw_mul g 9 = Ret (Some (2, 12)) /\ multiply c (Some (2, 12)) 9 = Ret (Some (20, 40)).
+Proof. exact raw_mul_needs_table_width. Qed.
+
+(* ---- points_for_x: exactly the two points with that abscissa, even y first, or an exception iff there is none ---- *)
+Theorem C02_points_for_x : forall p : Z, prime p -> p mod 4 = 3 ->
+  (forall t, t mod p <> 0 -> (t ^ (p - 1)) mod p = 1) ->
+  forall (a b n : Z) (g : gen), gc g = {| cp := p; ca := a; cb := b; cn := n |} ->
+  forall x : Z, ~ on_curve {| cp := p; ca := a; cb := b; cn := n |} (Some (x, 0)) ->
+  match points_for_x g x with
+  | Ret (P0, P1) =>
+      exists y0 y1, P0 = Some (x, y0) /\ P1 = Some (x, y1) /\ Z.even y0 = true /\ Z.odd y1 = true /\
+        0 < y0 < p /\ 0 < y1 < p /\ y0 + y1 = p /\
+        forall y, 0 <= y < p ->
+          (on_curve {| cp := p; ca := a; cb := b; cn := n |} (Some (x, y)) <-> y = y0 \/ y = y1)
+  | Raise _ => forall y, ~ on_curve {| cp := p; ca := a; cb := b; cn := n |} (Some (x, y))
+  | OutOfFuel => False
+  end.
+Proof. exact points_for_x_spec. Qed.
+Print Assumptions C02_points_for_x.
+
+(* ---- toy curves: M1, M3, M4, the order, odd order are decided by vm_compute (toy_ok); nothing is assumed ---- *)
+Theorem C02_toy_premises_hold : forall c : curve, toy_ok c = true -> toy_facts c.
+Proof. exact toy_ok_sound. Qed.
+Print Assumptions C02_toy_premises_hold.
+
+Theorem C02_toy_curves_checked : forallb toy_ok toy_curves = true.
+Proof. exact toy_curves_ok. Qed.
+Print Assumptions C02_toy_curves_checked.
+
+Theorem C02_toy_associative : forall c : curve, toy_ok c = true ->
+  forall P Q R : pt, valid c P -> valid c Q -> valid c R -> gadd c (gadd c P Q) R = gadd c P (gadd c Q R).
+Proof. exact toy_assoc. Qed.
+Print Assumptions C02_toy_associative.
+
+Theorem C02_toy_multiply : forall c : curve, toy_ok c = true ->
+  forall (P : pt) (e : Z), on_curve c P -> multiply c P e = Ret (kP c e (red c P)).
+Proof. exact toy_multiply. Qed.
+Print Assumptions C02_toy_multiply.
+
+Theorem C02_toy_fixed_base : forall c : curve, toy_ok c = true ->
+  forall (g : gen) (e : Z), gc g = c -> valid c (gG g) -> cn c <= 2 ^ Z.of_nat (g_bits g) ->
+  gmul g e = Ret (kP c e (gG g)) /\ raw_mul g e = Ret (kP c e (gG g)).
+Proof. exact toy_gmul. Qed.
+Print Assumptions C02_toy_fixed_base.
+
+Theorem C02_toy_points_for_x : forall c : curve, toy_ok c = true -> forall (g : gen) (x : Z), gc g = c ->
+  match points_for_x g x with
+  | Ret (P0, P1) =>
+      exists y0 y1, P0 = Some (x, y0) /\ P1 = Some (x, y1) /\ Z.even y0 = true /\ Z.odd y1 = true /\
+        0 < y0 < cp c /\ 0 < y1 < cp c /\ y0 + y1 = cp c /\
+        forall y, 0 <= y < cp c -> (on_curve c (Some (x, y)) <-> y = y0 \/ y = y1)
+  | Raise _ => forall y, ~ on_curve c (Some (x, y))
+  | OutOfFuel => False
+  end.
+Proof. exact toy_points_for_x. Qed.
+Print Assumptions C02_toy_points_for_x.
+
+(* ---- the shipped generators (table regenerated from /repo): G on the curve and reduced, p = 3 mod 4, n odd,
+        n <= 2^bit_count, bit_count = max(256, bit_length n) are decided by computation; M1, M4, n*G = O stay premises ---- *)
+Theorem C02_shipped_side_conditions : forallb shipped_checkb shipped_curves = true.
+Proof. exact shipped_ok. Qed.
+Print Assumptions C02_shipped_side_conditions.
+
+Theorem C02_shipped_fixed_base : forall t, In t shipped_curves ->
+  let c := shipped_curve t in
+  M1 c -> M4 c -> order_kills c (shipped_G t) ->
+  forall blind e : Z, gmul (shipped_gen t blind) e = Ret (kP c e (shipped_G t)) /\
+                      raw_mul (shipped_gen t blind) e = Ret (kP c e (shipped_G t)).
+Proof. exact shipped_fixed_base. Qed.
+Print Assumptions C02_shipped_fixed_base.
+
+Theorem C02_shipped_multiply : forall t, In t shipped_curves ->
+  let c := shipped_curve t in
+  M1 c -> M4 c -> forall P : pt, on_curve c P -> order_kills c (red c P) ->
+  forall e : Z, multiply c P e = Ret (kP c e (red c P)).
+Proof. exact shipped_multiply. Qed.
+Print Assumptions C02_shipped_multiply.
